@@ -78,7 +78,9 @@ let keys_of (fp : BinNums.coq_N list list) = L.map utf8_of_runes fp
 let resolves _mid fp = resolve_path (keys_of fp) <> None
 let body_ok _mid fp = match resolve_path (keys_of fp) with
   | Some (_, kinds) -> L.for_all (function Msg _ -> true | _ -> false) kinds | None -> false
-let resp_ok _mid _fp = true
+(* the reply type of every method of the routing harness is verif.rt.Msg too: a response_body selector is
+   usable under the same condition as a body selector *)
+let resp_ok mid fp = body_ok mid fp
 
 let int32_text (s : string) : int option =
   if s = "null" then Some 0 else
@@ -208,6 +210,7 @@ let spec_reg cls (ms : meth list) : string =
       && (match b.raw with
           | None -> true
           | Some r -> (r.body = "" || r.body = "*" || body_ok () (L.map str_of_string (String.split_on_char '.' r.body)))
+                      && (r.resp = "" || resp_ok () (L.map str_of_string (String.split_on_char '.' r.resp)))
                       && not r.nested) in
   let rec pairs = function [] -> [] | x :: r -> L.map (fun y -> (x, y)) r @ pairs r in
   let collide (a, b) = a.owner <> b.owner && verbs_overlap a.sverb b.sverb
